@@ -243,6 +243,10 @@ def oracle(case, irecs, mrecs):
             st[op[1]] = s; img[op[1]] = list(R)
             if s['cw'] != sum(w for _, w in s['cents']) & M64:
                 fail('tdc_centroids_weight', 'centroids_weight_ %d is not the sum of the centroid weights' % s['cw'], i)
+            pts = list(s['cents']) + [(v, 1) for v in s['buf']]
+            if (empty(s) and (s['rev'] or s['mn'] != PINF or s['mx'] != NINF)) or (total(s) == 1 and (pts != [(s['mn'], 1)] or s['mx'] != s['mn'])):
+                fail('tdc_canonical', 'an empty digest without the initial min/max/flag, or a single value with min != max != value '
+                     '(hypothesis [canonical] of C09_td_observational)', i)
             if R != py_enc(s):
                 fail('tdc_layout', 'image differs from the documented layout applied to the content of the object (first difference at byte %d)' %
                      next((j for j, (a, b) in enumerate(zip(R, py_enc(s) + [None] * len(R))) if a != b), -1), i)
@@ -289,5 +293,20 @@ RULE_C11 = ('every strict prefix of native images (all state classes, with and w
             '(float-cast-overflow enabled); non-trivial = every case')
 
 MUTATIONS = '''
- (filled in after the mutation runs)
+ Scratch worktree = /repo 5b502aa + fixes/11_tdigest_compat_stream_state.patch + fixes/11_tdigest_compat_casts.patch, VERIF_SEED=1 quick, 2026-10-02.
+ caught (VIOLATION printed by the property named):
+ CM1  byte-vector writer drops the REVERSE_MERGE flag, stream writer keeps it: tdc_bytes_stream_differ (C09, C10, C11)
+ CM2  bytes reader takes reverse_merge from the IS_SINGLE_VALUE bit: tdc_roundtrip path 0 (C09, C10), + correspondence (C11)
+ CM3  get_serialized_size_bytes forgets the buffer: ASan heap-buffer-overflow in serialize (C09, C10, C11)
+ CM4  bytes reader: size test ignores the buffered values: ASan over-read on prefixes (C11)
+ CM5  stream reader: final stream-state test removed: tdc_prefix_accepted path 1 + correspondence (C11)
+ CM6  COMPAT_DOUBLE bytes reader reads mean before weight: tdc_documented_layout (C10), correspondence (C11)
+ CM7  COMPAT_FLOAT stream reader does not byte-swap the centroid count: tdc_documented_layout (C10), correspondence (C11)
+ CM8  single-value image: stream reader forgets the REVERSE_MERGE flag: tdc_roundtrip path 1 (C09, C10, C11)
+ CM9  both writers store max before min (consistently): tdc_layout + tdc_roundtrip (C09, C10, C11)
+ CM10 compat_cast accepts 2^digits (<= instead of <): UBSan float-cast-overflow on weight 2^64 (C11)
+ harmless, exit 0 on all three: CH1 stream writer emits the centroids one by one; CH2 bytes reader reads the three leading bytes by index and
+ tests them in another order.
+ On /repo without the two patches: C11 prints VIOLATION (ASan allocation-size-too-big for the 4-byte stream 00 00 00 01, UBSan float-cast-overflow for
+ k / weights out of range, tdc_compat_prefix_accepted for 25 prefixes of the COMPAT_FLOAT image).
 '''
